@@ -44,6 +44,14 @@ def chain_molecule(workdir, name, n, hset, offset, resname=None, residues=None, 
     """chain of n atoms at distinct lattice points; atoms in hset (1-based) are hydrogens"""
     workdir = os.path.join(os.path.dirname(workdir), 'p%d' % os.getpid(), os.path.basename(workdir))
     names = [('H%d' if (i + 1) in hset else 'C%d') % (i + 1) for i in range(n)]
+    if residues is not None and len({r[0] for r in residues}) < len({r for r in residues}):
+        # residue names recur: atoms are named by their place in the residue, as in a protein (two residues of one name
+        # and size are the same residue kind, with the same atom names)
+        names, k, last = [], 0, None
+        for r in residues:
+            k = k + 1 if r == last else 1
+            last = r
+            names.append('C%d' % k)
     if style == 0:
         pos = [(offset[0] + 0.125 * i, offset[1] + 0.125 * ((i * i) % 3), offset[2] + 0.125 * (i % 2)) for i in range(n)]
     else:       # a different shape, so that a start moved onto an end of equal size never coincides with it
@@ -361,7 +369,7 @@ def _work_random(args):
                     for w, lens in enumerate((lens1, lens2)):
                         residues = []
                         for r, ln in enumerate(lens, 1):
-                            residues += [('R%02d' % r, r)] * ln
+                            residues += [(('ALA', 'GLY', 'ARG')[(r * 7 + tid) % 3] if tid % 2 else 'R%02d' % r, r)] * ln     # residue names recur along the chain, with any sizes
                         mols.append(chain_molecule(os.path.join(workdir, 'p%d_%d' % (tid, w)), 'PR', sum(lens), set(), (0, 0, 0),
                                                    residues=residues, style=w))
                     try:
@@ -513,7 +521,7 @@ def _work_enumerated(cases, part, workdir):
                 for w, lens in enumerate((cs['lens1'], cs['lens2'])):
                     residues = []
                     for r, ln in enumerate(lens, 1):
-                        residues += [('R%02d' % r, r)] * ln
+                        residues += [(('ALA', 'GLY', 'ARG')[(r * 7 + tid) % 3] if tid % 2 else 'R%02d' % r, r)] * ln     # residue names recur along the chain, with any sizes
                     mols.append(chain_molecule(os.path.join(workdir, 'q%d_%d' % (tid, w)), 'PR', sum(lens), set(), (0, 0, 0), residues=residues))
                 pairs = guess_protein_restrains(mols[0], mols[1])
                 ev = [{'op': 'Protein', 'lens1': cs['lens1'], 'lens2': cs['lens2'], 'outcome': 'pairs',
